@@ -132,3 +132,35 @@ func ZZ_C13() {
 		vr.Assert(cosi.AggregateResponse(publics, responses, message, true) != nil, "mismatching-share-is-rejected-in-strict-aggregation")
 	}
 }
+
+// ZZ_C13_mask: the signer mask and the signer list are the same set for every position of
+// the 64-bit mask: marking position i (0..63) sets exactly bit i, Keys() reports exactly the
+// marked positions in increasing order, and positions outside 0..63 are refused.
+func ZZ_C13_mask() {
+	var c CosiSignature
+	i := vr.Choose(0, 63)
+	j := vr.Choose(0, 63)
+	vr.Assert(c.mark(i) == nil, "positions-0-to-63-can-be-marked")
+	vr.Assert(c.Mask == uint64(1)<<uint(i), "marking-sets-exactly-that-bit")
+	if j != i {
+		vr.Assert(c.mark(j) == nil, "positions-0-to-63-can-be-marked")
+	}
+	keys := c.Keys()
+	want := []int{i}
+	if j < i {
+		want = []int{j, i}
+	} else if j > i {
+		want = []int{i, j}
+	}
+	vr.Assert(len(keys) == len(want), "keys-are-exactly-the-marked-positions")
+	for k := range want {
+		if k < len(keys) {
+			vr.Assert(keys[k] == want[k], "keys-are-exactly-the-marked-positions")
+		}
+	}
+	vr.Assert(c.ThresholdVerify(len(want)) && !c.ThresholdVerify(len(want)+1), "threshold-counts-the-marked-positions")
+	bad := vr.Int()
+	vr.Assume(bad < 0 || bad > 63)
+	vr.Assert(c.mark(bad) != nil, "positions-outside-the-mask-are-refused")
+	vr.Cover("mask")
+}
